@@ -97,12 +97,6 @@ Proof.
 Qed.
 
 (* ---- one operation without the overflow plumbing ---- *)
-Definition drop_pub (s : st) (reg : Z) : st :=
-  match find (fun p => p_reg p =? reg) (pubs s) with
-  | Some p => let s1 := upd_pubs s (filter (fun x => negb (p_reg x =? reg)) (pubs s)) in
-              if p_inmap p then upd_nid s1 (nid s + 1) else s1
-  | None => s
-  end.
 Definition hold (s : st) (reg idx : Z) : st :=
   match find_sub reg (subs s) with
   | Some o => match (if idx <? 0 then None else nth_error (so_imgs o) (Z.to_nat idx)) with
@@ -115,12 +109,14 @@ Definition unhold (s : st) (j : Z) : st := if j <? 0 then s else upd_clones s (r
 Definition subscribe_ev (s : st) : st := upd_subs (upd_nid s (nid s + 1)) (subs s ++ [mkSobj (nid s) [] false true]).
 Definition pub_key (s : st) (share : Z) : Z := if share <? 0 then nid s else share.
 Definition publish_ev (s : st) (share file : Z) : st :=
-  upd_registry (upd_pubs (upd_nid s (nid s + 1)) (pubs s ++ [mkPobj (nid s) (pub_key s share) true])) (acquire (registry s) (pub_key s share) file).
+  upd_registry (upd_pubs (upd_nid s (nid s + 1)) (pubs s ++ [mkPobj (nid s) (pub_key s share) true true])) (acquire (registry s) (pub_key s share) file).
 
 Definition step_p (lg : Z) (s : st) (o : op) : st * outcome Z :=
   match o with
-  | Subscribe now => if cclosed s then (s, Err Closed) else (timers_p lg now (subscribe_ev s), Ok (nid s))
-  | Publish now share file => if cclosed s then (s, Err Closed) else (timers_p lg now (publish_ev s share file), Ok (nid s))
+  | Subscribe now => if cclosed s then (s, Err Closed) else if ringfull s then (upd_nid s (nid s + 1), Err IllegalState)
+                     else (timers_p lg now (subscribe_ev s), Ok (nid s))
+  | Publish now share file => if cclosed s then (s, Err Closed) else if ringfull s then (upd_nid s (nid s + 1), Err IllegalState)
+                              else (timers_p lg now (publish_ev s share file), Ok (nid s))
   | Avail now corr reg file => (timers_p lg now (on_available s now corr reg file), Ok 0)
   | Unavail now corr reg => (timers_p lg now (on_unavailable s now corr reg), Ok 0)
   | Tick now => (timers_p lg now s, Ok 0)
@@ -129,13 +125,15 @@ Definition step_p (lg : Z) (s : st) (o : op) : st * outcome Z :=
   | Hold reg idx => (hold s reg idx, Ok 0)
   | Unhold j => (unhold s j, Ok 0)
   | CloseClient now => (close_client s now, Ok 0)
+  | Stall => (upd_full s true, Ok 0)
+  | Drain => (upd_full s false, Ok 0)
   end.
 
 Definition op_ok (o : op) : Prop :=
   match o with
   | Subscribe now | Publish now _ _ | Avail now _ _ _ | Unavail now _ _ | Tick now
   | DropSub now _ | DropPub now _ | CloseClient now => time_ok now
-  | Hold _ _ | Unhold _ => True
+  | Hold _ _ | Unhold _ | Stall | Drain => True
   end.
 
 Lemma acquire_ok r k f : Forall etime_ok r -> Forall etime_ok (acquire r k f).
@@ -184,35 +182,40 @@ Qed.
 Lemma step_p_wf lg s o : wf s -> op_ok o -> wf (fst (step_p lg s o)).
 Proof.
   intros Hwf Ho. destruct o; cbn [step_p op_ok] in *.
-  - destruct (cclosed s); [assumption|]. cbn [fst]. apply timers_p_wf; [|assumption]. eapply wf_same; [| | |exact Hwf]; reflexivity.
-  - destruct (cclosed s); [assumption|]. cbn [fst]. apply timers_p_wf; [|assumption].
+  - destruct (cclosed s); [assumption|]. destruct (ringfull s); [cbn [fst]; (eapply wf_same; [| | |exact Hwf]; reflexivity)|].
+    cbn [fst]. apply timers_p_wf; [|assumption]. eapply wf_same; [| | |exact Hwf]; reflexivity.
+  - destruct (cclosed s); [assumption|]. destruct (ringfull s); [cbn [fst]; (eapply wf_same; [| | |exact Hwf]; reflexivity)|]. cbn [fst]. apply timers_p_wf; [|assumption].
     destruct Hwf as (Hc & Hl & Hr). split; [exact Hc|]. split; [exact Hl|]. cbn. apply acquire_ok. assumption.
   - cbn [fst]. apply timers_p_wf; [|assumption]. apply on_available_wf; assumption.
   - cbn [fst]. apply timers_p_wf; [|assumption]. apply on_unavailable_wf; assumption.
   - cbn [fst]. apply timers_p_wf; assumption.
   - cbn [fst]. apply drop_sub_wf; assumption.
   - cbn [fst]. unfold drop_pub. destruct (find _ _) as [p|]; [|assumption].
-    destruct (p_inmap p); eapply wf_same; [| | |exact Hwf| | | |exact Hwf]; reflexivity.
+    destruct (p_inmap p); [destruct (ringfull s)|]; (eapply wf_same; [| | |exact Hwf]; reflexivity).
   - cbn [fst]. unfold hold. destruct (find_sub _ _) as [o|]; [|assumption].
     destruct (if idx <? 0 then None else _); [|assumption]. eapply wf_same; [| | |exact Hwf]; reflexivity.
   - cbn [fst]. unfold unhold. destruct (j <? 0); [assumption|]. eapply wf_same; [| | |exact Hwf]; reflexivity.
   - cbn [fst]. apply close_client_wf; assumption.
+  - cbn [fst]. (eapply wf_same; [| | |exact Hwf]; reflexivity).
+  - cbn [fst]. (eapply wf_same; [| | |exact Hwf]; reflexivity).
 Qed.
 
 Lemma step_eq m lg s o : wf s -> time_ok lg -> op_ok o -> step m lg s o = Ok (step_p lg s o).
 Proof.
   intros Hwf Hlg Ho. destruct o; cbn [step step_p op_ok] in *.
-  - destruct (cclosed s); [reflexivity|]. fold (subscribe_ev s).
+  - destruct (cclosed s); [reflexivity|]. destruct (ringfull s); [reflexivity|]. fold (subscribe_ev s).
     rewrite timers_eq; [reflexivity| |assumption]. eapply wf_same; [| | |exact Hwf]; reflexivity.
-  - destruct (cclosed s); [reflexivity|]. fold (pub_key s share). fold (publish_ev s share file).
+  - destruct (cclosed s); [reflexivity|]. destruct (ringfull s); [reflexivity|]. fold (pub_key s share). fold (publish_ev s share file).
     rewrite timers_eq; [reflexivity| |assumption].
     destruct Hwf as (Hc & Hl & Hr). split; [exact Hc|]. split; [exact Hl|]. cbn. apply acquire_ok. assumption.
   - rewrite timers_eq; [reflexivity| |assumption]. apply on_available_wf; assumption.
   - rewrite timers_eq; [reflexivity| |assumption]. apply on_unavailable_wf; assumption.
   - rewrite timers_eq; [reflexivity|assumption|assumption].
   - reflexivity.
-  - unfold drop_pub. destruct (find _ _) as [p|]; reflexivity.
+  - reflexivity.
   - unfold hold. destruct (find_sub _ _) as [o|]; [|reflexivity]. destruct (if idx <? 0 then None else _); reflexivity.
+  - reflexivity.
+  - reflexivity.
   - reflexivity.
   - reflexivity.
 Qed.
@@ -507,18 +510,20 @@ Qed.
 Lemma Inv_step lg s o : Inv s -> Inv (fst (step_p lg s o)).
 Proof.
   intros HI. destruct o; cbn [step_p].
-  - destruct (cclosed s); [assumption|]. cbn [fst]. apply Inv_timers, Inv_subscribe. assumption.
-  - destruct (cclosed s); [assumption|]. cbn [fst]. apply Inv_timers. eapply Inv_nid; [| | | | |exact HI]; cbn; try reflexivity; lia.
+  - destruct (cclosed s); [assumption|]. destruct (ringfull s); [cbn [fst]; (eapply Inv_nid; [| | | | |exact HI]; cbn; try reflexivity; lia)|]. cbn [fst]. apply Inv_timers, Inv_subscribe. assumption.
+  - destruct (cclosed s); [assumption|]. destruct (ringfull s); [cbn [fst]; (eapply Inv_nid; [| | | | |exact HI]; cbn; try reflexivity; lia)|]. cbn [fst]. apply Inv_timers. eapply Inv_nid; [| | | | |exact HI]; cbn; try reflexivity; lia.
   - cbn [fst]. apply Inv_timers, Inv_available. assumption.
   - cbn [fst]. apply Inv_timers, Inv_unavailable. assumption.
   - cbn [fst]. apply Inv_timers. assumption.
   - cbn [fst]. apply Inv_drop_sub. assumption.
   - cbn [fst]. unfold drop_pub. destruct (find _ _) as [p|]; [|assumption].
-    destruct (p_inmap p); (eapply Inv_nid; [| | | | |exact HI]; cbn; try reflexivity; lia).
+    destruct (p_inmap p); [destruct (ringfull s)|]; (eapply Inv_nid; [| | | | |exact HI]; cbn; try reflexivity; lia).
   - cbn [fst]. unfold hold. destruct (find_sub _ _) as [a|]; [|assumption].
     destruct (if idx <? 0 then None else _); [|assumption]. eapply Inv_same; [| | | | |exact HI]; reflexivity.
   - cbn [fst]. unfold unhold. destruct (j <? 0); [assumption|]. eapply Inv_same; [| | | | |exact HI]; reflexivity.
   - cbn [fst]. apply Inv_close. assumption.
+  - cbn [fst]. eapply Inv_same; [| | | | |exact HI]; reflexivity.
+  - cbn [fst]. eapply Inv_same; [| | | | |exact HI]; reflexivity.
 Qed.
 
 (* ---- what the invariant says ---- *)
@@ -767,16 +772,20 @@ Proof.
     unfold closing_lists in A. apply in_flat_map in A. destruct A as (b & Hb & Hin).
     destruct (closing b); [|destruct Hin]. destruct Hin as [Hin|[]]. subst. left. exists b. auto.
   - right. right. left. exact H.
-  - apply in_map_iff in A. destruct A as (q & Hq & Hin). subst. right. right. right. exists q. auto.
+  - apply in_map_iff in A. destruct A as (q & Hq & Hin). subst. apply filter_In in Hin. right. right. right. exists q. tauto.
 Qed.
 
 Lemma in_use_drop_pub s reg k : in_use_P (drop_pub s reg) k -> in_use_P s k.
 Proof.
   unfold drop_pub. destruct (find _ _) as [p|]; [|auto].
-  assert (H : in_use_P (upd_pubs s (filter (fun x => negb (p_reg x =? reg)) (pubs s))) k -> in_use_P s k).
+  assert (H : in_use_P (upd_pubs s (filter (fun x => negb (is_held_pub reg x)) (pubs s))) k -> in_use_P s k).
   { unfold in_use_P. cbn [subs lingering clones pubs upd_pubs]. intros [H|[H|[H|(q & A & B)]]]; auto.
     apply filter_In in A. right. right. right. exists q. tauto. }
-  destruct (p_inmap p); auto.
+  assert (H2 : in_use_P (upd_pubs s (map (fun x => if is_held_pub reg x then mkPobj (p_reg x) (p_key x) true false else x) (pubs s))) k -> in_use_P s k).
+  { unfold in_use_P. cbn [subs lingering clones pubs upd_pubs]. intros [H0|[H0|[H0|(q & A & B)]]]; auto.
+    apply in_map_iff in A. destruct A as (x & Hx & Hin). right. right. right. exists x. split; [assumption|].
+    destruct (is_held_pub reg x); subst; auto. }
+  destruct (p_inmap p); [destruct (ringfull s)|]; auto.
 Qed.
 
 Lemma in_use_hold s reg idx k : in_use_P (hold s reg idx) k -> in_use_P s k.
@@ -861,8 +870,9 @@ Proof. unfold RInv, init, in_use_P. cbn. split; [|split]; [|intros e []|construc
 Lemma RInv_step lg s o : RInv s -> RInv (fst (step_p lg s o)).
 Proof.
   intros HI. destruct o; cbn [step_p].
-  - destruct (cclosed s); [assumption|]. cbn [fst]. apply RInv_timers. eapply RInv_mono; [| |exact HI]; [reflexivity|apply in_use_subscribe].
-  - destruct (cclosed s); [assumption|]. cbn [fst]. apply RInv_timers.
+  - destruct (cclosed s); [assumption|]. destruct (ringfull s); [cbn [fst]; (eapply RInv_mono; [| |exact HI]; [reflexivity|auto])|].
+    cbn [fst]. apply RInv_timers. eapply RInv_mono; [| |exact HI]; [reflexivity|apply in_use_subscribe].
+  - destruct (cclosed s); [assumption|]. destruct (ringfull s); [cbn [fst]; (eapply RInv_mono; [| |exact HI]; [reflexivity|auto])|]. cbn [fst]. apply RInv_timers.
     eapply (RInv_acquire s _ (pub_key s share) file); [reflexivity| |exact HI]. apply in_use_publish.
   - cbn [fst]. apply RInv_timers. unfold on_available at 1.
     destruct (find_sub reg (subs s)) as [o|] eqn:Ef; [|assumption]. destruct (live o) eqn:El; [|assumption].
@@ -875,11 +885,13 @@ Proof.
   - cbn [fst]. eapply RInv_mono; [| |exact HI]; [|apply in_use_drop_sub].
     unfold drop_sub. destruct (find_sub _ _) as [o|]; [|reflexivity]. destruct (so_inmap o); reflexivity.
   - cbn [fst]. eapply RInv_mono; [| |exact HI]; [|apply in_use_drop_pub].
-    unfold drop_pub. destruct (find _ _) as [p|]; [|reflexivity]. destruct (p_inmap p); reflexivity.
+    unfold drop_pub. destruct (find _ _) as [p|]; [|reflexivity]. destruct (p_inmap p); [destruct (ringfull s)|]; reflexivity.
   - cbn [fst]. eapply RInv_mono; [| |exact HI]; [|apply in_use_hold].
     unfold hold. destruct (find_sub _ _) as [o|]; [|reflexivity]. destruct (if idx <? 0 then None else _); reflexivity.
   - cbn [fst]. eapply RInv_mono; [| |exact HI]; [|apply in_use_unhold]. unfold unhold. destruct (j <? 0); reflexivity.
   - cbn [fst]. eapply RInv_mono; [| |exact HI]; [|apply in_use_close]. unfold close_client. destruct (cclosed s); reflexivity.
+  - cbn [fst]. (eapply RInv_mono; [| |exact HI]; [reflexivity|auto]).
+  - cbn [fst]. (eapply RInv_mono; [| |exact HI]; [reflexivity|auto]).
 Qed.
 
 (* ---- the linger guarantee ---- *)
@@ -890,7 +902,7 @@ Definition op_time (o : op) : option Z :=
   match o with
   | Subscribe now | Publish now _ _ | Avail now _ _ _ | Unavail now _ _ | Tick now
   | DropSub now _ | DropPub now _ | CloseClient now => Some now
-  | Hold _ _ | Unhold _ => None
+  | Hold _ _ | Unhold _ | Stall | Drain => None
   end.
 Definition within (t0 lg : Z) (o : op) : Prop := match op_time o with Some now => t0 <= now <= t0 + lg | None => True end.
 
@@ -931,8 +943,9 @@ Proof. unfold on_available. destruct (find_sub _ _) as [o|]; [|auto]. destruct (
 Lemma fresh_step t0 lg k s o : within t0 lg o -> fresh_since t0 k s -> fresh_since t0 k (fst (step_p lg s o)).
 Proof.
   intros Hw H. destruct o; cbn [step_p]; unfold within in Hw; cbn [op_time] in Hw.
-  - destruct (cclosed s); [assumption|]. cbn [fst]. apply fresh_timers; [assumption|]. eapply fresh_same; [|exact H]. reflexivity.
-  - destruct (cclosed s); [assumption|]. cbn [fst]. apply fresh_timers; [assumption|].
+  - destruct (cclosed s); [assumption|]. destruct (ringfull s); [cbn [fst]; eapply fresh_same; [|exact H]; reflexivity|].
+    cbn [fst]. apply fresh_timers; [assumption|]. eapply fresh_same; [|exact H]. reflexivity.
+  - destruct (cclosed s); [assumption|]. destruct (ringfull s); [cbn [fst]; eapply fresh_same; [|exact H]; reflexivity|]. cbn [fst]. apply fresh_timers; [assumption|].
     unfold fresh_since, publish_ev. cbn [registry upd_registry]. apply fresh_acquire. exact H.
   - cbn [fst]. apply fresh_timers; [assumption|]. unfold fresh_since.
     destruct (registry_on_available s now corr reg file) as [E|E]; rewrite E; [exact H|apply fresh_acquire; exact H].
@@ -941,10 +954,12 @@ Proof.
     destruct (remove_first _ _) as [[i rest]|]; reflexivity.
   - cbn [fst]. apply fresh_timers; assumption.
   - cbn [fst]. eapply fresh_same; [|exact H]. unfold drop_sub. destruct (find_sub _ _) as [a|]; [|reflexivity]. destruct (so_inmap a); reflexivity.
-  - cbn [fst]. eapply fresh_same; [|exact H]. unfold drop_pub. destruct (find _ _) as [p|]; [|reflexivity]. destruct (p_inmap p); reflexivity.
+  - cbn [fst]. eapply fresh_same; [|exact H]. unfold drop_pub. destruct (find _ _) as [p|]; [|reflexivity]. destruct (p_inmap p); [destruct (ringfull s)|]; reflexivity.
   - cbn [fst]. eapply fresh_same; [|exact H]. unfold hold. destruct (find_sub _ _) as [a|]; [|reflexivity]. destruct (if idx <? 0 then None else _); reflexivity.
   - cbn [fst]. eapply fresh_same; [|exact H]. unfold unhold. destruct (j <? 0); reflexivity.
   - cbn [fst]. eapply fresh_same; [|exact H]. unfold close_client. destruct (cclosed s); reflexivity.
+  - cbn [fst]. eapply fresh_same; [|exact H]. reflexivity.
+  - cbn [fst]. eapply fresh_same; [|exact H]. reflexivity.
 Qed.
 
 Lemma fresh_has_key t0 k s : fresh_since t0 k s -> has_key k (registry s) = true.
